@@ -327,42 +327,6 @@ fn open_out(path: &str) -> BufWriter<std::fs::File> {
     BufWriter::new(f)
 }
 
-/// runs f in a forked child and returns its JSON result; a child killed by a signal yields a "died" observation
-fn in_child(f: impl FnOnce() -> Value) -> Value {
-    use std::io::Read;
-    use std::os::unix::io::FromRawFd;
-    unsafe {
-        let mut fds = [0i32; 2];
-        if libc::pipe(fds.as_mut_ptr()) != 0 {
-            return f();
-        }
-        let pid = libc::fork();
-        if pid == 0 {
-            libc::close(fds[0]);
-            let devnull = libc::open(b"/dev/null\0".as_ptr() as *const libc::c_char, libc::O_WRONLY);
-            libc::dup2(devnull, 2);
-            let v = f();
-            let s = serde_json::to_vec(&v).unwrap();
-            let mut w = std::fs::File::from_raw_fd(fds[1]);
-            let _ = std::io::Write::write_all(&mut w, &s);
-            drop(w);
-            libc::_exit(0);
-        }
-        libc::close(fds[1]);
-        let mut r = std::fs::File::from_raw_fd(fds[0]);
-        let mut buf = Vec::new();
-        let _ = r.read_to_end(&mut buf);
-        let mut status = 0i32;
-        libc::waitpid(pid, &mut status, 0);
-        if libc::WIFSIGNALED(status) || buf.is_empty() {
-            let sig = if libc::WIFSIGNALED(status) { libc::WTERMSIG(status) } else { 0 };
-            // SIGABRT after a failed allocation is what std's handle_alloc_error does
-            return json!({"real": "died", "msg": format!("child killed by signal {}", sig), "rpos": 0, "reser": [], "oom": sig == libc::SIGABRT});
-        }
-        serde_json::from_slice(&buf).unwrap_or(json!({"real": "died", "msg": "unreadable child result", "rpos": 0, "reser": [], "oom": false}))
-    }
-}
-
 fn main() {
     let args: Vec<String> = std::env::args().collect();
     let cmd = args.get(1).map(|s| s.as_str()).unwrap_or("");
@@ -447,7 +411,7 @@ fn main() {
                 };
                 // inputs whose declared length is absurd are handled in a forked child: an allocation-failure
                 // abort then costs a fork, not a restart of this process
-                let obs = if risky { in_child(run) } else { run() };
+                let obs = if risky { vcommon::in_child(run) } else { run() };
                 writeln!(out, "{}", json!({"i": i, "fails": [], "obs": obs})).unwrap();
                 out.flush().unwrap();
             }
